@@ -137,6 +137,12 @@ func checks() []Check {
 			Units:       []Unit{{Name: "life", Pkg: ".", Tags: "verifmc", Test: "TestMC_C04", Instrument: true, Shards: 16, BudgetQuick: 150, BudgetThorough: 1500, Env: []string{"GOMAXPROCS=2"}}},
 		},
 		{
+			ID: "C05", Level: "model_checking",
+			Rule: "stateless model checking of the real engine built with -race: the scheduler's hand-offs are raw futex operations in //go:norace code, hence invisible to the race detector, which therefore judges every explored schedule by gnet's own happens-before relation; every schedule within the delay bound of user goroutines calling the documented concurrency-safe API against accept/traffic/close/tick/start/stop; a confinement monitor checks one thread per loop and no overlapping callbacks; an execution is one evaluation",
+			Assumptions: append([]string{"races are found between accesses executed in an explored schedule (happens-before based, independent of timing); hardware weak-memory effects beyond the Go memory model are out of reach", "the harness publishes objects from callbacks to user goroutines through a real atomic.Value, as a correct application must", "self-test: MC_C05_CONTROL=1 adds a scenario calling the non-concurrency-safe SetContext from another goroutine, which must be reported"}, commonAssumptions...),
+			Units: []Unit{{Name: "race", Pkg: ".", Tags: "verifmc,mcfutex", Race: true, Test: "TestMC_C05", Instrument: true, Shards: 16, BudgetQuick: 150, BudgetThorough: 1500, Env: []string{"GOMAXPROCS=2"}}},
+		},
+		{
 			ID: "C06", Level: "model_checking",
 			Rule:        "stateless model checking of the real engine: every schedule within a delay bound of shutdown requested from every documented source at every reachable moment of short runs; virtual time (timers fire only when nothing else can run); oracle: Run/Client.Stop returns nil within the step horizon, OnShutdown exactly once, every opened connection closed exactly once before the return, nothing runs afterwards (the scheduler keeps going until no thread is enabled and all timers have fired)",
 			Assumptions: append([]string{"bounded time = bounded scheduler steps under the fairness rule; wall-clock time is not observed"}, commonAssumptions...),
@@ -147,6 +153,12 @@ func checks() []Check {
 			Rule:        "same executions as C04, evaluated with the descriptor ledger kept by the system-call shim: ownership of every fd number, framework calls on closed or foreign descriptors, double close, leaks at the return of Run, unix-socket file removal",
 			Assumptions: append([]string{"descriptors created by package net (Dial/Enroll) are outside the ledger"}, commonAssumptions...),
 			Units:       []Unit{{Name: "fd", Pkg: ".", Tags: "verifmc", Test: "TestMC_C07", Instrument: true, Shards: 16, BudgetQuick: 150, BudgetThorough: 1500, Env: []string{"GOMAXPROCS=2"}}},
+		},
+		{
+			ID: "C08", Level: "model_checking",
+			Rule: "stateless model checking of the real engine with UDP listeners on loopback: 1-2 senders x 1-3 datagrams, every handler choice (consumption and reply mode, Choose points) within a deviation bound and every schedule within a delay bound, plus a size sweep (one datagram per size) on the default schedule; payloads carry sender and sequence number; oracle: exactly one OnTraffic per datagram showing exactly its payload, RemoteAddr == sender's bound address, each reply arrives as exactly one datagram at exactly the addressed socket",
+			Assumptions: append([]string{"loopback UDP delivery is synchronous with sendto on this kernel; a bounded real-time settle step only guards against deferral to a softirq thread", "with 2 loops the kernel's SO_REUSEPORT hash decides the receiving loop"}, commonAssumptions...),
+			Units: []Unit{{Name: "udp", Pkg: ".", Tags: "verifmc", Test: "TestMC_C08", Instrument: true, Shards: 16, BudgetQuick: 150, BudgetThorough: 1500, Env: []string{"GOMAXPROCS=2"}}},
 		},
 		{
 			ID: "C09", Level: "model_checking",
